@@ -183,10 +183,21 @@ def emit_program(setup=(), loop=(), functions=(), helpers=(), ultrasonic=(), glo
     return EmitResult(out.value, out.value.splitlines(), it.cov)
 
 
-def parse_source(src: str):
+def emit_prog(prog, module_state=None):
+    """emit() on a Program object; with module_state: inside the simulated process that dict stands for (module-level tables
+    shared between calls).  -> dl outcome"""
+    em = mod(EMITTER)
+    it = dl.Interp(em, extra_env=ir_env(), max_steps=3_000_000, module_state=module_state, share_consts=module_state is not None)
+    try:
+        return it.call(em.func("emit"), [prog])
+    except dl.Unsupported as e:
+        raise AnalysisError(f"emit() left the evaluable subset: {e}")
+
+
+def parse_source(src: str, module_state=None):
     """partial evaluation of parse() on a concrete script (used for whole-pipeline structural facts)"""
     pm = mod(PARSER)
-    it = dl.Interp(pm, extra_env=ir_env(), max_steps=5_000_000, opaque={"ast.parse": ast.parse, "ast.literal_eval": ast.literal_eval, "ast.unparse": ast.unparse,
+    it = dl.Interp(pm, extra_env=ir_env(), max_steps=5_000_000, module_state=module_state, share_consts=module_state is not None, opaque={"ast.parse": ast.parse, "ast.literal_eval": ast.literal_eval, "ast.unparse": ast.unparse,
                                                                             "ast.iter_child_nodes": lambda n: list(ast.iter_child_nodes(n)),
                                                                             "re.fullmatch": re.fullmatch})
     return it, it.call(pm.func("parse"), [src])
